@@ -143,7 +143,7 @@ func cborDocFamilies(sc docScope, run docBody) []engine.Family {
 			mkDoc(x, codecCBOR, "cbor-break-lengths", "break-valued-bytes", doc, model.Complete, run)
 		}},
 		{Name: "cbor-deep", Body: func(x *engine.Exec) {
-			n := []int{31, 32, 33, 63, 64, 65, 70}[x.Choose(7)]
+			n := []int{31, 32, 33, 61, 62, 63, 64, 65, 70}[x.Choose(9)]
 			indef := x.Bool()
 			var doc []byte
 			for i := 0; i < n; i++ {
@@ -153,13 +153,57 @@ func cborDocFamilies(sc docScope, run docBody) []engine.Family {
 					doc = append(doc, 0x81)
 				}
 			}
-			doc = append(doc, 0x01)
+			// the innermost item: a small integer, or an item with an explicit length field (its own parser states on top of the nesting)
+			switch x.Choose(4) {
+			case 0:
+				doc = append(doc, 0x01)
+			case 1:
+				doc = append(append(doc, 0x78, 24), bytes.Repeat([]byte{'t'}, 24)...)
+			case 2:
+				doc = append(append(doc, 0x98, 24), bytes.Repeat([]byte{0x01}, 24)...)
+			default:
+				doc = append(append(doc, 0xB8, 24), bytes.Repeat([]byte{0x61, 'k', 0xF6}, 24)...)
+			}
 			if indef {
 				for i := 0; i < n; i++ {
 					doc = append(doc, 0xFF)
 				}
 			}
 			mkDoc(x, codecCBOR, "cbor-deep", "deep-nesting", doc, model.Complete, run)
+		}},
+		{Name: "cbor-deeper", Body: func(x *engine.Exec) {
+			// beyond the second and third growth step of the parser's stacks, in every container form and mixed
+			n := []int{66, 127, 128, 129, 130, 257}[x.Choose(6)]
+			form := x.Choose(5) // definite arrays, indefinite arrays, definite maps, indefinite maps, cycling through all four
+			var doc, tail []byte
+			for i := 0; i < n; i++ {
+				f := form
+				if form == 4 {
+					f = i % 4
+				}
+				switch f {
+				case 0:
+					doc = append(doc, 0x81)
+				case 1:
+					doc = append(doc, 0x9F)
+					tail = append([]byte{0xFF}, tail...)
+				case 2:
+					doc = append(doc, 0xA1, 0x61, 'k')
+				default:
+					doc = append(doc, 0xBF, 0x61, 'k')
+					tail = append([]byte{0xFF}, tail...)
+				}
+			}
+			if form == 1 && x.Bool() {
+				// one more element behind the deep child in every enclosing (indefinite) array
+				var t2 []byte
+				for range tail {
+					t2 = append(t2, 0x02, 0xFF)
+				}
+				tail = t2
+			}
+			doc = append(append(doc, 0x01), tail...)
+			mkDoc(x, codecCBOR, "cbor-deeper", "deep-nesting", doc, model.Complete, run)
 		}},
 	}
 }
@@ -300,21 +344,93 @@ func ubjDocFamilies(sc docScope, run docBody) []engine.Family {
 			mkDoc(x, codecUBJSON, "ubj-noop-insertions", "noop-inserted", ins, anyStatus, run)
 		}},
 		{Name: "ubj-deep", Body: func(x *engine.Exec) {
-			n := []int{31, 32, 33, 40}[x.Choose(4)]
+			n := []int{30, 31, 32, 33, 40}[x.Choose(5)]
 			var doc []byte
 			for i := 0; i < n; i++ {
 				doc = append(doc, '[')
 			}
-			doc = append(doc, 'T')
+			switch x.Choose(4) {
+			case 0:
+				doc = append(doc, 'T')
+			case 1:
+				doc = append(append(doc, 'S', 'U', 70), bytes.Repeat([]byte{'s'}, 70)...)
+			case 2:
+				doc = append(doc, '[', '$', 'i', '#', 'i', 3, 1, 2, 3)
+			default:
+				doc = append(doc, '{', '#', 'i', 1, 'i', 1, 'k', 'H', 'i', 2, '1', '2')
+			}
 			for i := 0; i < n; i++ {
 				doc = append(doc, ']')
 			}
 			mkDoc(x, codecUBJSON, "ubj-deep", "deep-nesting", doc, model.Complete, run)
 		}},
+		{Name: "ubj-deeper", Body: func(x *engine.Exec) {
+			// across the first three growth steps of the parser's state / length / element-type stacks, in every container form
+			n := []int{63, 64, 65, 66, 127, 128, 129, 130, 257}[x.Choose(9)]
+			form := x.Choose(6) // plain arrays, plain objects, counted arrays, counted objects, typed-in-typed arrays, cycling through the first four
+			var doc, tail []byte
+			if form == 4 {
+				// [$[#i1 $[#i1 ... : every level announces the element type of the next
+				doc = append(doc, '[')
+				for i := 0; i < n-1; i++ {
+					doc = append(doc, '$', '[', '#', 'i', 1)
+				}
+				doc = append(doc, '$', 'i', '#', 'i', 1, 7)
+			} else {
+				for i := 0; i < n; i++ {
+					f := form
+					if form == 5 {
+						f = i % 4
+					}
+					switch f {
+					case 0:
+						doc = append(doc, '[')
+						tail = append([]byte{']'}, tail...)
+					case 1:
+						doc = append(doc, '{', 'i', 1, 'k')
+						tail = append([]byte{'}'}, tail...)
+					case 2:
+						doc = append(doc, '[', '#', 'i', 1)
+					default:
+						doc = append(doc, '{', '#', 'i', 1, 'i', 1, 'k')
+					}
+				}
+				if form <= 1 && x.Bool() {
+					// one more element behind the deep child in every enclosing (plain) container
+					var t2 []byte
+					for _, c := range tail {
+						if c == ']' {
+							t2 = append(t2, 'i', 2, ']')
+						} else {
+							t2 = append(t2, 'i', 1, 's', 'i', 3, '}')
+						}
+					}
+					tail = t2
+				}
+				doc = append(append(doc, 'T'), tail...)
+			}
+			mkDoc(x, codecUBJSON, "ubj-deeper", "deep-nesting", doc, model.Complete, run)
+		}},
 	}
 }
 
 const bs = "\\"
+
+// jsonWithSiblings inserts one more element / member in front of every closing bracket of a nesting chain.
+func jsonWithSiblings(doc string) string {
+	var sb strings.Builder
+	for i := 0; i < len(doc); i++ {
+		switch doc[i] {
+		case ']':
+			sb.WriteString(",2]")
+		case '}':
+			sb.WriteString(`,"s":3}`)
+		default:
+			sb.WriteByte(doc[i])
+		}
+	}
+	return sb.String()
+}
 
 func cat2(bs ...[]byte) []byte {
 	var out []byte
@@ -416,7 +532,28 @@ func jsonDocFamilies(sc docScope, run docBody) []engine.Family {
 		}},
 		{Name: "json-deep", Body: func(x *engine.Exec) {
 			n := []int{31, 32, 33, 40, 64}[x.Choose(5)]
-			mkDoc(x, codecJSON, "json-deep", "deep-nesting", []byte(gen.JSONNest(n)), model.Complete, run)
+			doc := gen.JSONNest(n)
+			if x.Bool() {
+				doc = jsonWithSiblings(doc)
+			}
+			mkDoc(x, codecJSON, "json-deep", "deep-nesting", []byte(doc), model.Complete, run)
+		}},
+		{Name: "json-deeper", Body: func(x *engine.Exec) {
+			n := []int{65, 66, 127, 128, 129, 130, 257}[x.Choose(7)]
+			var doc string
+			switch x.Choose(3) {
+			case 0:
+				doc = strings.Repeat("[", n) + "1" + strings.Repeat("]", n)
+			case 1:
+				doc = strings.Repeat(`{"k":`, n) + "1" + strings.Repeat("}", n)
+			default:
+				doc = gen.JSONNest(n)
+			}
+			if x.Bool() {
+				// one more element behind the deep child in every enclosing container
+				doc = jsonWithSiblings(doc)
+			}
+			mkDoc(x, codecJSON, "json-deeper", "deep-nesting", []byte(doc), model.Complete, run)
 		}},
 	}
 }
